@@ -71,3 +71,69 @@ def skeleton_region(orthogonal, **opts):
     r.radialIndex = 0
     r.equilibriumRegion = types.SimpleNamespace(xPointsAtStart=[None, None], xPointsAtEnd=[None, None], name="eqr")
     return r
+
+
+# --------------------------------------------------------------------------- MultiLocationArray arithmetic
+FN_MLA = "hypnotoad.core.multilocationarray:MultiLocationArray.__array_ufunc__"
+
+
+def make_mla_arith_run(locs_a, locs_b):
+    """Every field of a region is a MultiLocationArray and every formula of geometry1 /
+    geometry2 / calcMetric is written once and evaluated through __array_ufunc__ at four
+    locations by four near-identical blocks.  Contract (real class, symbolic entries, nx=2,
+    ny=1, all entries distinct): for + - * / between two arrays, with a scalar on either side,
+    with a plain ndarray-free unary minus and for a three-operand expression, the result holds at
+    each location L exactly op(a.L, b.L) -- entry by entry -- when every array operand has L,
+    and has NO array at L otherwise (a location never borrows values from another one)."""
+    import z3
+
+    from vc.sym import And, Sym, spec_mode
+
+    ALL = ("centre", "xlow", "ylow", "corners")
+
+    def run(ctx):
+        import numpy as real_numpy
+
+        a = sym_mla(ctx, "a", locs_a, 2, 1, shared=False)
+        b = sym_mla(ctx, "b", locs_b, 2, 1, shared=False)
+        k = ctx.real("k")
+        for l in locs_b:
+            for v in getattr(b, l).flat:
+                ctx.assume(v != 0)
+        has = lambda m, l: getattr(m, "_%s_array" % l) is not None
+        cases = {
+            "a+b": (a + b, lambda x, y: x + y, (a, b)),
+            "a-b": (a - b, lambda x, y: x - y, (a, b)),
+            "a*b": (a * b, lambda x, y: x * y, (a, b)),
+            "a/b": (a / b, lambda x, y: x / y, (a, b)),
+            "k*a": (k * a, lambda x, y: k * x, (a,)),
+            "a-k": (a - k, lambda x, y: x - k, (a,)),
+            "k/b": (k / b, lambda x, y: k / y, (b,)),
+            "-a": (-a, lambda x, y: -x, (a,)),
+            "a*a/b+k*b": (a * a / b + k * b, lambda x, y: x * x / y + k * y, (a, b)),
+        }
+        T = lambda c: Sym(z3.BoolVal(bool(c)))
+        with spec_mode():
+            for nm, (res, f, ops) in cases.items():
+                ctx.oblige(T(isinstance(res, mla_cls()) and res.nx == 2 and res.ny == 1), "%s is a MultiLocationArray of the operands' size" % nm)
+                for l in ALL:
+                    present = all(has(o, l) for o in ops)
+                    ctx.oblige(T(has(res, l) == present), "%s: result defined at %s exactly when every array operand is" % (nm, l))
+                    if present and has(res, l):
+                        ra = getattr(res, l)
+                        xa = getattr(a, l) if has(a, l) else None
+                        yb = getattr(b, l) if has(b, l) else None
+                        shape = (xa if xa is not None else yb).shape
+                        ctx.oblige(T(ra.shape == shape), "%s at %s: shape of that location" % (nm, l))
+                        if ra.shape == shape:
+                            ctx.oblige(And(*[ra[i] == f(xa[i] if xa is not None else None, yb[i] if yb is not None else None) for i in real_numpy.ndindex(*shape)]), "%s at %s: entry by entry the operation on the operands AT %s" % (nm, l, l))
+            ctx.oblige(T(all(has(a, l) == (l in locs_a) for l in ALL) and all(has(b, l) == (l in locs_b) for l in ALL)), "operands unchanged in which locations they define")
+
+    return run
+
+
+def add_mla_arith(S):
+    S.under_contract(FN_MLA)
+    ALL = ("centre", "xlow", "ylow", "corners")
+    for la, lb in ((ALL, ALL), (ALL, ("centre", "ylow")), (("xlow", "corners"), ALL), (("centre", "xlow"), ("ylow", "corners"))):
+        S.contract("MultiLocationArray arithmetic[a: %s; b: %s]" % ("+".join(la), "+".join(lb)), FN_MLA, make_mla_arith_run(la, lb), shape="nx=2, ny=1, every entry a distinct symbol")
